@@ -105,8 +105,10 @@ func c12(c *Ctx) {
 	r := c.R
 	r.Explanation = "Engine A at bit level on the PES structures. A3: for every outcome of each PES writer (PTS/DTS classes × ESCR × ES rate × 6 DSM trick-mode classes × copy info × extension flags × extension-2 data) the emitted abstract stream (GF(2)-affine bit forms over the header fields) is given to the parser's abstract interpretation; every parsed field must come back as the written field on the emitted width (all 2^33 timestamp values at once: the 3/15/15 split with marker bits is checked bit by bit), the parser must accept the stream and consume exactly the emitted bytes, PES_header_data_length and PES_extension_field_length must equal the bytes that follow them. " +
 		"A5: no shift or mask discards its whole operand (the decoding of fields the writer does not support is only covered by this rule). A2: calcPESOptionalHeader(Data)Length = bytes emitted. " +
-		"NOT decided: agreement with an independent ISO 13818-1 table (a defect shared by parser and writer), the PES_packet_length rule, payload boundaries (dataStart/dataEnd), ClockReference.Duration() arithmetic."
-	r.RuleText = "one obligation per structure field (A3/<pair>/field/<path>), per pair acceptance and consumption, per length pair (A2), per dead bit operation (A5)"
+		"A4: reference encodings transcribed from ISO 13818-1 2.4.3.6/7 (PTS, ESCR, 816 optional headers, 16 DSM trick-mode bytes, 24 whole PES packets with bounded/unbounded PES_packet_length, header stuffing and trailing bytes) are parsed by the same abstract interpretation: fields come from the bits the standard puts them in, the payload is exactly what PES_packet_length delimits; the parser's own unsigned arithmetic is unknown where it can wrap. " +
+		"D1: ClockReference.Duration() = Base·10^9/90000 + Extension·10^9/27000000, multiplied before divided, no int64 overflow for Base < 2^33, Extension < 2^9 (symbolic evaluation of the SSA expression). " +
+		"NOT decided: pack_header_field, behaviour on PES_packet_length larger than the available bytes beyond 'an error', ClockReference.Time()."
+	r.RuleText = "one obligation per structure field (A3/<pair>/field/<path>), per pair acceptance and consumption, per length pair (A2), per dead bit operation (A5), per term of Duration() (D1)"
 	r.Trusted = []string{"go/types + go/ssa (x/tools v0.29.0)", "astikit BitsWriter (Write emits the operand's bits MSB first, WriteN the low n bits, WriteBytesN exactly n bytes) and BytesIterator summaries", "package bitdom (unit-tested against concrete evaluation)"}
 	ck := layout.NewBits(c.P)
 	ck.A3(r, c12Pairs(c))
@@ -123,6 +125,7 @@ func c12(c *Ctx) {
 	}
 	lk := layout.New(c.P)
 	lk.A2(r, packetPairs(c)[2:])
+	c12Duration(c)
 	r.Floor("A3", "structure fields compared", countPrefix(r, "A3/", "/field/"), 60)
 }
 
